@@ -1,4 +1,4 @@
-\* C12 sum() over inventory values, thorough: up to 3 rows, histories (one of 3 statements, then any of 24)
+\* C12 sum() over inventory values, thorough: up to 3 rows, histories (one of 3 statements, then any of 24 x no LIMIT | LIMIT 1 | LIMIT 2)
 CONSTANTS
   Mode = "copy"
   Scale = 1
@@ -6,6 +6,7 @@ CONSTANTS
   HistLen = 2
   Rich = TRUE
   RichCells = FALSE
+  Limits = {0, 1, 2}
   Prices <- MCPrices
 INIT Init
 NEXT SNext
